@@ -13,6 +13,7 @@ from . import values as V
 from .values import SInt, SBool, Seq, SMap, Obj, mk, zint, zbool, Unsupported
 
 Z3_DECIDE_MS = int(os.environ.get('PYVC_DECIDE_MS', '3000'))
+BASELINE = set()       # names of obligations discharged on the unchanged tree (set by the driver from baseline-obligations.txt)
 
 
 class Raised(Exception):
@@ -283,6 +284,22 @@ def _has_quant(t):
     return False
 
 
+def _has_lambda(t):
+    seen, stack = set(), [t]
+    while stack:
+        x = stack.pop()
+        if x.get_id() in seen:
+            continue
+        seen.add(x.get_id())
+        if z3.is_quantifier(x):
+            if x.is_lambda():
+                return True
+            stack.append(x.body())
+            continue
+        stack.extend(x.children())
+    return False
+
+
 def _selects(t):
     out, seen, stack = [], set(), [t]
     while stack:
@@ -433,6 +450,19 @@ def discharge(o, z3_ms=10000, cvc5_ms=20000, both=False):
             if r != z3.unknown:
                 s = s2
                 break
+    if r == z3.unknown and not _has_lambda(o.claim):
+        # lambda arrays (uninterpreted folds over derived sequences) make z3's array theory incomplete: a proof that does
+        # not need those facts is found from the path condition without them (dropping assumptions is sound for unsat)
+        keep = [c for c in o.pc if not _has_lambda(c)]
+        if len(keep) < len(o.pc):
+            s3 = z3.Solver()
+            s3.set('timeout', z3_ms)
+            for c in keep:
+                s3.add(c)
+            s3.add(z3.Not(o.claim))
+            if s3.check() == z3.unsat:
+                r = z3.unsat
+                o.detail = 'discharged without the lambda-array facts of the path condition'
     if r == z3.unsat:
         o.status = 'discharged'
     elif r == z3.sat:
